@@ -3,6 +3,7 @@
 //! c10 (frame codec), c09 (token bucket / RateLimited).
 use vh::io::Args;
 
+mod c09;
 mod c10;
 mod c12;
 mod c16;
@@ -11,6 +12,7 @@ mod c43;
 fn main() {
     let args = Args::parse();
     match args.sub.as_str() {
+        "c09" => c09::run(&args),
         "c10" => c10::run(&args),
         "c12" => c12::run(&args),
         "c16" => c16::run(&args),
